@@ -129,6 +129,7 @@ func cmdReplay(args []string) int {
 	maxPrint := fs.Int("maxprint", 10, "print at most this many violation lines")
 	nsamples := fs.Int("samples", 3, "cases kept as samples in the summary")
 	verbose := fs.Bool("v", false, "print every case result")
+	stride := fs.Int("stride", 1, "replay only the cases whose text hashes to 0 modulo this number (a deterministic subset)")
 	_ = fs.Parse(args)
 
 	var r io.Reader = os.Stdin
@@ -173,6 +174,11 @@ func cmdReplay(args []string) int {
 		sc.Buffer(make([]byte, 1<<20), 1<<28)
 		for sc.Scan() {
 			if t := extractCase(sc.Text()); t != "" {
+				if *stride > 1 {
+					if h := sha1.Sum([]byte(t)); (int(h[0])<<8|int(h[1]))%*stride != 0 {
+						continue
+					}
+				}
 				jobs <- job{t}
 			}
 		}
